@@ -22,7 +22,7 @@ use std::sync::Arc;
 pub const COUNTERS: &[&str] = &[
     "texts_tried", "texts_accepted", "texts_field_product", "texts_edit_ball", "texts_short", "texts_non_ascii",
     "builder_states_tried", "builder_states_accepted", "builder_states_reference_valid", "builder_states_accepted_but_not_valid_tolerated",
-    "crowded_boards_tried", "crowded_boards_accepted", "crowded_max_men_of_a_colour_accepted", "accepted_boards_exercised", "moves_applied_on_accepted_boards", "universe_positions_accepted",
+    "texts_digit_runs", "crowded_boards_tried", "crowded_boards_accepted", "crowded_max_men_of_a_colour_accepted", "accepted_boards_exercised", "moves_applied_on_accepted_boards", "universe_positions_accepted",
 ];
 
 fn case_text(s: &str) -> Value {
@@ -189,6 +189,30 @@ fn placements() -> Vec<String> {
         v.insert(format!("{b}/"));
     }
     v.into_iter().collect()
+}
+
+/// Long digit runs inside one rank: digit d repeated k times (k <= 300, so that a counter of any width up to
+/// 11 bits is passed), then nothing or a man, in the first and in the last rank written.
+fn digit_runs(run: &Run) {
+    use rayon::prelude::*;
+    let jobs: Vec<(char, usize)> = "0123456789".chars().flat_map(|d| (1..=300usize).map(move |k| (d, k))).collect();
+    let n = AtomicU64::new(0);
+    jobs.par_iter().for_each(|(d, k)| {
+        if run.has_violation() {
+            return;
+        }
+        let run_txt: String = std::iter::repeat(*d).take(*k).collect();
+        for tok in ["", "K", "k", "P", "7"] {
+            for text in [format!("{run_txt}{tok}/8/8/8/8/8/8/K6k w - - 0 1"), format!("k6K/8/8/8/8/8/8/{run_txt}{tok} w - - 0 1"), format!("k6K/8/8/{run_txt}{tok}/8/8/8/8 b - - 0 1")] {
+                n.fetch_add(1, Ordering::Relaxed);
+                if !judge_text(run, &text) {
+                    return;
+                }
+            }
+        }
+    });
+    run.add("texts_digit_runs", n.load(Ordering::Relaxed));
+    run.add("texts_tried", n.load(Ordering::Relaxed));
 }
 
 fn field_product(run: &Run) {
@@ -552,11 +576,17 @@ fn crowded(run: &Run, tier: Tier) {
     patterns.push(("filled from a2 upwards", (8..56u8).collect()));
     patterns.push(("filled from h7 downwards", (8..56u8).rev().collect()));
     let max_men = AtomicU64::new(0);
-    let jobs: Vec<(usize, Kind, Col)> = (0..patterns.len()).flat_map(|i| [Kind::N, Kind::B, Kind::R, Kind::Q, Kind::P].into_iter().flat_map(move |k| [Col::W, Col::B].into_iter().map(move |c| (i, k, c)))).collect();
-    jobs.par_iter().for_each(|&(pi, kind, me)| {
+    // one kind, or two kinds alternating (a crowd that no single per-kind limit sees)
+    let kinds: Vec<(Kind, Kind)> = vec![(Kind::N, Kind::N), (Kind::B, Kind::B), (Kind::R, Kind::R), (Kind::Q, Kind::Q), (Kind::P, Kind::P), (Kind::N, Kind::R), (Kind::N, Kind::B), (Kind::N, Kind::Q), (Kind::B, Kind::R), (Kind::B, Kind::Q), (Kind::R, Kind::Q), (Kind::Q, Kind::P)];
+    let jobs: Vec<(usize, (Kind, Kind), Col)> = (0..patterns.len()).flat_map(|i| kinds.clone().into_iter().flat_map(move |k| [Col::W, Col::B].into_iter().map(move |c| (i, k, c)))).collect();
+    jobs.par_iter().for_each(|&(pi, (kind1, kind2), me)| {
         let (_, pat) = &patterns[pi];
         let stepn = tier.pick(2usize, 1usize);
         for n in (0..=pat.len()).step_by(stepn) {
+            // two alternating kinds only matter where a single kind would already be refused or nearly so
+            if kind1 != kind2 && n < 12 {
+                continue;
+            }
             // own king: first square of the board that the pattern prefix does not use
             let used: BTreeSet<u8> = pat[..n].iter().copied().collect();
             let own_k = match (0..64u8).find(|s| !used.contains(s)) {
@@ -572,7 +602,8 @@ fn crowded(run: &Run, tier: Tier) {
                 }
                 let mut p = RefPos::empty();
                 let mut bb = BoardBuilder::new();
-                for &s in pat[..n].iter() {
+                for (idx, &s) in pat[..n].iter().enumerate() {
+                    let kind = if idx % 2 == 0 { kind1 } else { kind2 };
                     if kind == Kind::P && (s < 8 || s >= 56) {
                         continue;
                     }
@@ -645,7 +676,7 @@ impl PosOracle for C07Universe {
     }
 }
 
-pub const RULE: &str = "text: (i) the complete product placement(~200: valid ones, ranks not summing to 8, digit runs that wrap the file counter, 7 and 9 ranks, empty, stray letters, multi-byte characters) x side(7) x castling(14) x en passant(27) x tail(4); (ii) the complete 1-edit ball (insert / delete / substitute at every index, 48-symbol alphabet incl. tab, LF, 2/3/4-byte characters and 2-byte characters whose low byte equals p, K, 8, /, w, -, space) of ~50 seed FENs (thorough: the 2-edit ball of 3 short seeds); (iii) every string of length <= 3 (thorough 4). builder: EVERY builder state with <= 2 men (thorough 3) of any kind and colour on any squares (0-3 kings of a colour, pawns on the back ranks included) x both sides to move x a rights alphabet x an en-passant-file alphabet; structured builder families: (a) both kings anywhere (adjacent included) plus one man of any of the 12 kinds anywhere x side x rights x en-passant file; (b) castling-right backing: kings on/off home x every corner empty / own rook / own bishop / enemy rook x all 16 rights sets; (c) en-passant shape: a pawn of either colour or none on file f of rank 4/5 and on each neighbour file, passed-over square empty or occupied, every en-passant file; crowded boards: for 6 square patterns x 5 kinds x 2 colours, n = 0..|pattern| men of one colour laid down in pattern order, the enemy king on every free square, either colour to move (on boards with more than 14 men of a colour the exercise also generates the replies to every move); the standard position universes (every reference-valid position must be accepted from the builder and from its standard FEN). Oracle: (1) no panic / abort; (2) accepted => one king each, side not to move not attacked, rights backed by king and rook at home, en_passant() names an enemy pawn on its double-push rank; (3) reference-valid => accepted; between (2) and (3) either answer; (4) every accepted board: full move generation, len, status, rendering, null move, hash, make_move_new and make_move of every generated move, inside catch_unwind in the debug-assertion build. distinct_nontrivial = accepted inputs (each is exercised)";
+pub const RULE: &str = "text: (i) the complete product placement(~200: valid ones, ranks not summing to 8, digit runs that wrap the file counter, 7 and 9 ranks, empty, stray letters, multi-byte characters) x side(7) x castling(14) x en passant(27) x tail(4); (ii) the complete 1-edit ball (insert / delete / substitute at every index, 48-symbol alphabet incl. tab, LF, 2/3/4-byte characters and 2-byte characters whose low byte equals p, K, 8, /, w, -, space) of ~50 seed FENs (thorough: the 2-edit ball of 3 short seeds); (iii) every string of length <= 3 (thorough 4); (iv) digit runs: each digit repeated 1..=300 times inside the first, a middle and the last rank, followed by nothing, a king, a pawn or another digit. builder: EVERY builder state with <= 2 men (thorough 3) of any kind and colour on any squares (0-3 kings of a colour, pawns on the back ranks included) x both sides to move x a rights alphabet x an en-passant-file alphabet; structured builder families: (a) both kings anywhere (adjacent included) plus one man of any of the 12 kinds anywhere x side x rights x en-passant file; (b) castling-right backing: kings on/off home x every corner empty / own rook / own bishop / enemy rook x all 16 rights sets; (c) en-passant shape: a pawn of either colour or none on file f of rank 4/5 and on each neighbour file, passed-over square empty or occupied, every en-passant file; crowded boards: for 6 square patterns x 12 kind choices (5 single kinds, 7 pairs of kinds alternating) x 2 colours, n = 0..|pattern| men of one colour laid down in pattern order, the enemy king on every free square, either colour to move (on boards with more than 14 men of a colour the exercise also generates the replies to every move); the standard position universes (every reference-valid position must be accepted from the builder and from its standard FEN). Oracle: (1) no panic / abort; (2) accepted => one king each, side not to move not attacked, rights backed by king and rook at home, en_passant() names an enemy pawn on its double-push rank; (3) reference-valid => accepted; between (2) and (3) either answer; (4) every accepted board: full move generation, len, status, rendering, null move, hash, make_move_new and make_move of every generated move, inside catch_unwind in the debug-assertion build. distinct_nontrivial = accepted inputs (each is exercised)";
 
 pub fn run(tier: Tier) -> i32 {
     let run = Arc::new(Run::new("C07", tier, COUNTERS));
@@ -656,6 +687,7 @@ pub fn run(tier: Tier) -> i32 {
         phases.push((name.to_string(), t - t0));
         t0 = t;
     };
+    digit_runs(&run);
     crowded(&run, tier);
     lap("crowded boards", &run, &mut phases);
     if !run.has_violation() {
